@@ -93,6 +93,92 @@ def _worker(chunk):
     return out
 
 
+# ---------------------------------------------------------------- activation pairs and mutable defaults
+MUT = {"le": "[]", "de": "{}"}
+
+
+def pair_program(sig, c1, c2, kind):
+    """kind 'activate': two `activate callee` statements; kind 'mutable': two awaits of a callee that mutates
+    its (mutable-default) parameters in place.  The callee echoes what it received at its start."""
+    n = len(sig)
+    lit = dict(LIT, **MUT)
+    params = " ".join("$p%d" % (i + 1) + ("" if d == "-" else "=" + lit[d]) for i, d in enumerate(sig))
+    # (mutable kind: echo a string snapshot - the event would otherwise alias the list that is mutated next)
+    echo = ", ".join(("p%d=str($p%d)" if kind == "mutable" and sig[i] in MUT else "p%d=$p%d") % (i + 1, i + 1) for i in range(n))
+    callee = "flow callee %s\n  send Echo(%s)\n" % (params, echo)
+    if kind == "mutable":
+        for i, d in enumerate(sig):
+            if d == "le":
+                callee += "  ($p%d.append(1))\n" % (i + 1)
+            if d == "de":
+                callee += "  ($p%d.update({\"k\": 1}))\n" % (i + 1)
+    else:
+        callee += "  match Never2()\n"
+
+    def args(call):
+        pos = [lit[t] for t in call["pos"]]
+        if any(t == "l12" for t in call["pos"][1:]):
+            return "(" + ", ".join(pos + ["p%d=%s" % (i, lit[t]) for i, t in call["named"]]) + ")"
+        named = ["$p%d=%s" % (i, lit[t]) for i, t in call["named"]]
+        return " " + " ".join(pos + named)
+    verb = "activate" if kind == "activate" else "await"
+    return callee + "\nflow main\n  %s callee%s\n  send Mid()\n  %s callee%s\n  send Ret()\n  match Never()\n" % (
+        verb, args(c1), verb, args(c2))
+
+
+def _pair_worker(chunk):
+    from harness import colang2
+    out = []
+    for (k, sig, c1, c2, kind) in chunk:
+        src = pair_program(sig, c1, c2, kind)
+        rec = {"k": k, "error": None, "echoes": [], "src": src, "ret": False}
+        try:
+            st = colang2.start_main(colang2.compile_program(src))
+            evs = list(st.outgoing_events)
+        except Exception as ex:
+            rec["error"] = "%s: %s" % (type(ex).__name__, str(ex)[:200])
+            out.append(rec)
+            continue
+        pym = dict(PY, le=[], de={})
+
+        def tk(v):
+            if v == "[]":
+                return "le"
+            if v == "{}":
+                return "de"
+            return tok(v)
+        rec["echoes"] = [[tk(e.get("p%d" % (i + 1))) for i in range(len(sig))] for e in evs if e.get("type") == "Echo"]
+        rec["ret"] = any(e.get("type") == "Ret" for e in evs)
+        out.append(rec)
+    return out
+
+
+def pair_cases(cases, rnd, limit):
+    """Pairs of calls to the same signature built from the TLC-emitted universe."""
+    by_sig = {}
+    for c in cases:
+        if c["form"] == "start" and len(c["sig"]) >= 1:
+            by_sig.setdefault(json.dumps(c["sig"]), []).append(c)
+    pairs = []
+    for sk, lst in sorted(by_sig.items()):
+        sig = json.loads(sk)
+        rnd.shuffle(lst)
+        for a in lst[:4]:
+            for b in lst[:4]:
+                pairs.append((sig, a["call"], b["call"], "activate"))
+    # mutable defaults: every signature with a list/dict default, called twice omitting it
+    for sig in (["le"], ["de"], ["-", "le"], ["le", "de"], ["-", "de", "le"]):
+        first = [] if sig[0] != "-" else ["i1"]
+        call = {"pos": first, "named": []}
+        pairs.append((sig, call, call, "mutable"))
+        if sig[0] == "-":
+            pairs.append((sig, {"pos": ["ss"], "named": []}, call, "mutable"))
+    rnd.shuffle(pairs)
+    mut = [p for p in pairs if p[3] == "mutable"]
+    act = [p for p in pairs if p[3] == "activate"][:limit]
+    return mut + act
+
+
 def run(ctx):
     parts = 64 if ctx.quick else 8
     part = ctx.seed % parts
@@ -107,6 +193,15 @@ def run(ctx):
         for out in pool.imap_unordered(_worker, chunks):
             for rec in out:
                 recs[rec["k"]] = rec
+    # activation pairs / mutable defaults
+    import random as _random
+    pairs = pair_cases(cases, _random.Random(ctx.seed), 300 if ctx.quick else 3000)
+    pwork = [(k, sg, a, b, kind) for k, (sg, a, b, kind) in enumerate(pairs)]
+    precs = {}
+    with mp.Pool(16) as pool:
+        for out in pool.imap_unordered(_pair_worker, [pwork[i:i + 40] for i in range(0, len(pwork), 40)]):
+            for rec in out:
+                precs[rec["k"]] = rec
     skipped = 0
     jcases, jidx = [], []
     for k, c in enumerate(cases):
@@ -127,6 +222,19 @@ def run(ctx):
                        "echo": rec["echo"], "ret": ret, "expret": expret,
                        "caller_ok": rec["caller_ok"], "sibling_ok": rec["sibling_ok"]})
         jidx.append(k)
+    # each echo of a pair program is judged by the same rule Bind: the i-th distinct call must be echoed with Bind(sig, call)
+    pidx = []
+    for k, (sg, a, b, kind) in enumerate(pairs):
+        rec = precs[k]
+        if rec["error"] is not None:
+            ctx.violation("exception", "%s pair: %s\n%s" % (kind, rec["error"], rec["src"]), {"source": rec["src"], "error": rec["error"], "sig": {"form": kind, "kind": "exception"}})
+            continue
+        calls = [a, b]
+        for ci, call in enumerate(calls):
+            echo = rec["echoes"][ci] if ci < len(rec["echoes"]) else None
+            jcases.append({"sig": [("-" if d == "-" else d) for d in sg], "call": call, "form": kind, "echo": echo if echo is not None else ["<missing>"] * len(sg),
+                           "ret": "n", "expret": "n", "caller_ok": True, "sibling_ok": True})
+            jidx.append(("pair", k, ci))
     jd = ctx.sub("judge")
     jf = os.path.join(jd, "obs.json")
     with open(jf, "w") as f:
@@ -135,8 +243,24 @@ def run(ctx):
                  jd, spec_dirs=[SPEC_DIR], env={"TRACE_FILE": jf}, workers=1, timeout=3000)
     verd = {p["k"]: p for p in jr.printed if "k" in p}
     assert len(verd) == len(jcases), "judge: %d verdicts for %d cases" % (len(verd), len(jcases))
+    dup_ok = {}
     for i, k in enumerate(jidx, start=1):
         v = verd[i]
+        if isinstance(k, tuple):
+            _, pk, ci = k
+            sg, a, b, kind = pairs[pk]
+            rec = precs[pk]
+            # identical activations share one instance: the second echo is legitimately missing
+            pyv = dict(PY, le=[], de={})
+            same = (kind == "activate" and ci == 1 and len(rec["echoes"]) == 1
+                    # same arguments (as Python compares them: True == 1, the statement leaves that open) share one instance
+                    and [pyv.get(t, t) for t in verd[i - 1]["exp"]] == [pyv.get(t, t) for t in v["exp"]])
+            if not v["bind"] and not same:
+                ctx.violation("bind-" + kind, "%s: signature %s, calls %s then %s: call #%d was echoed as %s, rule says %s\n%s" % (
+                    {"activate": "two activations of one flow", "mutable": "two calls omitting a mutable default"}[kind], sg, a, b, ci + 1,
+                    rec["echoes"][ci] if ci < len(rec["echoes"]) else "<no instance started>", v["exp"], rec["src"]),
+                    {"sig_decl": sg, "calls": [a, b], "kind": kind, "source": rec["src"], "sig": {"clause": "bind", "form": kind}})
+            continue
         c, rec = cases[k], recs[k]
         if not v["wf"]:
             skipped += 1
@@ -150,7 +274,7 @@ def run(ctx):
                     {"sig_decl": c["sig"], "call": c["call"], "form": c["form"], "source": rec["src"],
                      "sig": {"clause": clause, "form": c["form"]}})
     samples = [{"sig": cases[k]["sig"], "call": cases[k]["call"], "form": cases[k]["form"], "callee_saw": recs[k]["echo"], "returned": recs[k]["ret"]}
-               for k in jidx[:: max(1, len(jidx) // 4)]][:4]
+               for k in [x for x in jidx if not isinstance(x, tuple)][:: max(1, len(jidx) // 4)]][:4]
     return {"level": LEVEL, "coverage": {
         "states": r.distinct + jr.distinct, "transitions": r.generated + jr.generated, "traces_validated_against_impl": len(jcases),
         "evaluations": len(cases), "distinct_nontrivial": sum(1 for c in cases if len(c["sig"]) >= 2 and (c["call"]["pos"] or c["call"]["named"])),
